@@ -6,6 +6,7 @@
 -/
 import Gmars.Driver.TextRun
 import Gmars.Spec.Program
+import Gmars.Model.Assemble
 
 namespace Gmars.Driver
 open Gmars Gmars.Wire Gmars.Spec
@@ -150,6 +151,19 @@ def outsideRefs (items : List Item) : Bool :=
       (a.expr ++ (b.map (·.expr)).getD []).any (fun | .name n => blockLabels.contains n | _ => false)
     | _ => false)
 
+def hexBytes (b : ByteArray) : String :=
+  let d (n : Nat) : Char := if n < 10 then Char.ofNat (48 + n) else Char.ofNat (87 + n)
+  String.ofList (b.toList.flatMap (fun c => [d (c.toNat / 16), d (c.toNat % 16)]))
+
+/-- the assembler model's answer in the wire form of the implementation's answer -/
+def modelAsmStr (cfg : Config) (bytes : List Nat) : String :=
+  match assemble cfg (bytes.map UInt8.ofNat) with
+  | .ok w => s!"ok start={w.start} name={hexBytes w.name.toUTF8} author={hexBytes w.author.toUTF8} strat={hexBytes w.strategy.toUTF8} code={";".intercalate (w.code.toList.map showCell)}"
+  | .err => "err"
+  | .unmodelled => "unmodelled"
+  | .fault (.hang _) => "timeout"
+  | .fault (.panic p) => "panic:" ++ (match p with | .index => "index" | .nilDeref => "nil" | .divZero => "div" | .slice => "slice" | .makeLen => "make")
+
 def propOfTag (tag : String) : String :=
   if tag == "expr" then "C07" else if tag == "for" then "C08" else "C03"
 
@@ -175,7 +189,11 @@ def runAsmLine (modelAsm : Option (Config → List Nat → String)) (line : Stri
             let m := f cfg bytes
             if m != "unmodelled" then
               let impl := if o.r.kind == "err" then "err" else showWResult o.r
-              if m != impl then
+              -- metadata that is not valid UTF-8 (a ;strategy comment cut inside a multi-byte rune)
+              -- cannot be a Lean String: outside the modelled subset
+              let metaOK := [o.r.name, o.r.author, o.r.strat].all (fun h =>
+                ByteArray.validateUTF8 (ByteArray.mk ((unhex h).map UInt8.ofNat).toArray))
+              if m != impl && metaOK then
                 out := out ++ [s!"V {id} {tag} CORR op=0 assemble: model {m.take 300} impl {impl.take 300}"]
           | none => pure ()
           -- C05
